@@ -179,6 +179,12 @@ def h_missing_slice(ctx, d, n):
     Y = _with_stubs(ctx, lambda: teneva.als(np.array(I), y, Y0, nswp=1, e=None, allow_skip_cores=True))
     ctx.claim('allowed_skip_keeps_shape', well_formed(Y, [n] * d))
     ctx.claim('uncovered_slice_kept', ctx.all_eq(Y[0][:, 1, :], Y0[0][:, 1, :]))
+    # a missing slice that is not the last one of its mode
+    I2 = [tuple([1] * d), tuple([1] * (d - 1) + [0])]
+    ctx.raises(ValueError, 'missing_first_slice_rejected', teneva.als, np.array(I2), y, Y0, 1)
+    w = vec(ctx, 'w', 2)
+    ctx.raises(ValueError, 'missing_first_slice_rejected_weighted',
+               lambda: teneva.als(np.array(I2), y, Y0, 1, lamb=None, w=w))
 
 
 def h_callback(ctx, d, n, I):
@@ -292,6 +298,10 @@ def instances(tier):
                     continue
                 out.append({'func': 'h_sweeps', 'params': {'d': 2, 'n': 2, 'r': r, 'I': I, 'weighted': wt, 'nswp': 1},
                             'opts': {'generic_divisors': True}})
+    # slices with two differently weighted samples and two unknowns per slice (rank 2)
+    for I in [[[0, 0], [0, 1], [1, 0]], [[1, 1], [0, 1], [1, 0]]] if quick else []:
+        out.append({'func': 'h_sweeps', 'params': {'d': 2, 'n': 2, 'r': 2, 'I': I, 'weighted': True, 'nswp': 1},
+                    'opts': {'generic_divisors': True}})
     for I in (_layouts(3, 2, 2)[:4] if quick else _layouts(3, 2, 2) + _layouts(3, 2, 3)[::7]):
         out.append({'func': 'h_sweeps', 'params': {'d': 3, 'n': 2, 'r': 1, 'I': I, 'weighted': False, 'nswp': 1},
                     'opts': {'generic_divisors': True}})
